@@ -60,6 +60,9 @@ type Step struct {
 	D   string `json:"d"`
 	S   string `json:"s"`
 	How string `json:"how"` // remote level: how the delivery ends (End)
+	// remote level, TakeDest: the message carries REQUIRETLS for this attempt (the scripted
+	// next hops are plaintext, so the attempt is refused with 550 5.7.30)
+	Reqtls bool `json:"reqtls"`
 }
 
 type Behaviour struct {
